@@ -704,3 +704,21 @@ fn c15_isotropic_gaussian_logp_is_normalised() {
         assert_eq!(q.logp(&from, &to), q.logp(&to, &from), "logp must be symmetric");
     }
 }
+
+/// C07 — a seeded HMC sampler is reproducible: its momenta and acceptance draws come from its own generator.
+#[test]
+fn c07_hmc_seeded_run_is_reproducible() {
+    use burn::backend::{Autodiff, NdArray};
+    use mini_mcmc::distributions::DiffableGaussian2D;
+    use mini_mcmc::hmc::HMC;
+    type B = Autodiff<NdArray>;
+    let run = |seed: u64| -> Vec<f32> {
+        let target = DiffableGaussian2D::new([0.0f32, 1.0], [[4.0, 2.0], [2.0, 3.0]]);
+        let mut s = HMC::<f32, B, _>::new(target, vec![vec![0.0f32, 0.0], vec![1.0, -1.0]], 0.1, 3).set_seed(seed);
+        s.run(5, 2).to_data().to_vec::<f32>().unwrap()
+    };
+    let a = run(42);
+    let b = run(42);
+    assert_eq!(a, b, "two HMC runs with the same seed differ");
+    assert_ne!(a, run(43), "different seeds gave identical HMC output");
+}
